@@ -408,6 +408,8 @@ def _none_default(chk, ctx) -> None:
         opt = []
         for arg, dflt in list(zip(reversed(a.posonlyargs + a.args), reversed(a.defaults))) + list(zip(a.kwonlyargs, a.kw_defaults)):
             if dflt is not None and isinstance(dflt, ast.Constant) and dflt.value is None:
+                if arg.annotation is not None and 'Card' in ast.unparse(arg.annotation):
+                    continue      # how cards may be written is C19's clause (C19.card_forms), not the index/count clause of C08
                 opt.append(arg.arg)
         if not opt:
             continue
